@@ -70,6 +70,8 @@ func (z *zipkinDecoderV2) decodeSpan(rawSpan jx.Raw) error {
 		return custom_errors.New400Error(fmt.Sprintf("span %s is not an object", rawSpan.String()))
 	}
 
+	localServiceName := ""
+	remoteServiceName := ""
 	err := dec.Obj(func(d *jx.Decoder, key string) error {
 		switch key {
 		case "traceId":
@@ -114,16 +116,14 @@ func (z *zipkinDecoderV2) decodeSpan(rawSpan jx.Raw) error {
 			if err != nil {
 				return err
 			}
-			z.serviceName = serviceName
+			localServiceName = serviceName
 			return nil
 		case "remoteEndpoint":
 			serviceName, err := z.parseEndpoint(d, "remote_endpoint_")
 			if err != nil {
 				return err
 			}
-			if z.serviceName != "" {
-				z.serviceName = serviceName
-			}
+			remoteServiceName = serviceName
 			return nil
 		case "tags":
 			err := z.parseTags(d)
@@ -135,6 +135,12 @@ func (z *zipkinDecoderV2) decodeSpan(rawSpan jx.Raw) error {
 	})
 	if err != nil {
 		return custom_errors.NewUnmarshalError(err)
+	}
+	// the span belongs to the local endpoint's service; the remote endpoint (the peer) names it
+	// only when there is no local name, whatever the order of the two fields in the document
+	z.serviceName = localServiceName
+	if z.serviceName == "" {
+		z.serviceName = remoteServiceName
 	}
 	z.key = append(z.key, "service.name")
 	z.val = append(z.val, z.serviceName)
